@@ -394,7 +394,11 @@ func runC15(c *Ctx) {
 			}
 		})
 		c.check(good, "handler-appends-respopt", h.Pos(), "the handler appends RespOpt() only when non-nil", "the server handler does not append the response OPT exactly when there is one")
-		// the append is the handler's only write to a section of the reply (nothing clears Extra afterwards)
+		// per packed message: the OPT append is the handler's only write to a section of that reply (nothing clears
+		// Extra afterwards), and every pack call is dominated by the RespOpt() != nil decision for the message it packs.
+		// (D40: besides the primary pack site there is the fallback for a reply that cannot be packed, with its own
+		// message and its own append.)
+		sites := handlerPackSites(p, h)
 		nSec := 0
 		eachInstr(h, func(in ssa.Instruction) {
 			if st, ok := in.(*ssa.Store); ok {
@@ -403,41 +407,26 @@ func runC15(c *Ctx) {
 				}
 			}
 		})
-		c.check(nSec == 1, "handler-keeps-sections", h.Pos(), "the handler's only write to the reply's sections is the OPT append", fmt.Sprintf("the handler writes the reply's sections %d times: a later write (e.g. clearing Extra on truncated replies) drops the response OPT the client is owed", nSec))
-		// every reply that is packed passed the RespOpt decision
-		pk := h.Params[len(h.Params)-1]
-		// the RespOpt() call whose result decides the append (the handler also asks RespOpt() to see whether an extended
-		// rcode can be sent at all, D20 — that call is inside a short-circuit condition and dominates nothing)
-		var respOptCall ssa.Instruction
-		eachInstr(h, func(in ssa.Instruction) {
-			if ci, ok := in.(*ssa.Call); ok && callName(ci) == "(*"+relQctx+".Context).RespOpt" {
-				for _, r := range referrers(ci) {
-					if bo, ok := r.(*ssa.BinOp); ok && bo.Op == token.NEQ && isNilConst(bo.Y) {
-						respOptCall = in
-					}
-				}
-			}
-		})
-		all := respOptCall != nil
+		all := sites.primary != nil && sites.problem == ""
 		nPack := 0
-		eachInstrDeep(h, func(f *ssa.Function, in ssa.Instruction) {
-			ci, ok := in.(ssa.CallInstruction)
-			if !ok {
-				return
-			}
-			if callName(ci) == "dynamic" && isParamValue(p, ci.Common().Value, pk) {
+		keeps := true
+		whyKeeps := ""
+		if sites.primary != nil {
+			for _, st := range append([]*packSite{sites.primary}, sites.fallbacks...) {
 				nPack++
-				if f != h || respOptCall == nil || !instrDominates(respOptCall, in) {
+				dec, store, n, why := respOptAppend(h, st.msg, st.call)
+				if n != 1 || why != "" {
+					keeps = false
+					whyKeeps = fmt.Sprintf("%d writes to the sections of the reply packed at %s %s", n, p.pos(instrPos(st.call)), why)
+				}
+				if dec == nil || store == nil || !instrDominates(dec, st.call) {
 					all = false
 				}
-				return
+				// no path from the append to the pack call rewrites the section (checked by n == 1), and no path from
+				// the decision reaches the pack call of this message around... the append (it is the decision's own edge)
 			}
-			for _, a := range ci.Common().Args {
-				if isParamValue(p, a, pk) {
-					all = false // handed to a helper that packs on its own
-				}
-			}
-		})
+		}
+		c.check(keeps && nSec == nPack, "handler-keeps-sections", h.Pos(), "the handler's only write to a reply's sections is the OPT append", fmt.Sprintf("the handler writes the reply's sections %d times for %d packed replies (%s): a later write (e.g. clearing Extra on truncated replies) drops the response OPT the client is owed", nSec, nPack, whyKeeps))
 		c.check(all && nPack > 0, "every-reply-passes-respopt", h.Pos(), "every packed reply passed the response-OPT decision",
 			"some reply (e.g. the SERVFAIL built on the error path) is packed without passing the response-OPT step: an EDNS client gets a reply without OPT")
 	}
